@@ -320,6 +320,24 @@ def _names_attrs(e: ast.AST) -> set[str]:
     return out
 
 
+def _make_array_structural(repo: Repo, rep: Report, ob, fi) -> None:
+    size_defs = [x for x in walk_body(fi.node.body) if isinstance(x, ast.Assign) and norm(x.targets[0]) == "size"]
+    vals = [norm(x.value) for x in size_defs]
+    prod = [x for x in size_defs if isinstance(x.value, ast.BinOp) and isinstance(x.value.op, ast.Mult)
+            and {norm(x.value.left), norm(x.value.right)} == {"num_entries", "type_.size"}]
+    ob(len(prod) == 1 and all(v == "None" for v in vals if v != norm(prod[0].value)) and len(size_defs) >= 3,
+       f"{fi.key}:size", "size is None or num_entries * type_.size", f"array size definitions are {vals}", fi.loc())
+    # None exactly when null-terminated / expression-sized / dynamic element: check the guards of the two None arms
+    g = CFG(fi.node)
+    tests = [norm(x.ast.test) for x in g.nodes if x.kind == "if"]
+    ob(any("num_entries is None" in t for t in tests) and any("Expression" in t and "dynamic" in t for t in tests),
+       f"{fi.key}:dynamic-arms", "size None iff null-terminated, expression-sized or dynamic element",
+       f"conditions selecting a dynamic array size changed: {tests}", fi.loc())
+    mk = [c for c in walk_body(fi.node.body) if isinstance(c, ast.Call) and call_name(c) == "_make_type"]
+    ob(bool(mk) and norm(kwargs_of(mk[0]).get("alignment") or ast.Constant(0)) == "type_.alignment" and norm(mk[0].args[2]) == "size",
+       f"{fi.key}:alignment", "array alignment is the element alignment", "array alignment is not the element alignment (type_.alignment)", fi.loc())
+
+
 def provenance_rule(repo: Repo, rep: Report, rid: str) -> None:
     rep.rule(rid, "size / alignment provenance of every type factory (obligation per factory)")
     n = 0
@@ -368,21 +386,19 @@ def provenance_rule(repo: Repo, rep: Report, rid: str) -> None:
 
     # _make_array
     fi = repo.func("cstruct.py", "cstruct._make_array")
-    size_defs = [x for x in walk_body(fi.node.body) if isinstance(x, ast.Assign) and norm(x.targets[0]) == "size"]
-    vals = [norm(x.value) for x in size_defs]
-    prod = [x for x in size_defs if isinstance(x.value, ast.BinOp) and isinstance(x.value.op, ast.Mult)
-            and {norm(x.value.left), norm(x.value.right)} == {"num_entries", "type_.size"}]
-    ob(len(prod) == 1 and all(v == "None" for v in vals if v != norm(prod[0].value)) and len(size_defs) >= 3,
-       f"{fi.key}:size", "size is None or num_entries * type_.size", f"array size definitions are {vals}", fi.loc())
-    # None exactly when null-terminated / expression-sized / dynamic element: check the guards of the two None arms
-    g = CFG(fi.node)
-    tests = [norm(x.ast.test) for x in g.nodes if x.kind == "if"]
-    ob(any("num_entries is None" in t for t in tests) and any("Expression" in t and "dynamic" in t for t in tests),
-       f"{fi.key}:dynamic-arms", "size None iff null-terminated, expression-sized or dynamic element",
-       f"conditions selecting a dynamic array size changed: {tests}", fi.loc())
-    mk = [c for c in walk_body(fi.node.body) if isinstance(c, ast.Call) and call_name(c) == "_make_type"]
-    ob(bool(mk) and norm(kwargs_of(mk[0]).get("alignment") or ast.Constant(0)) == "type_.alignment" and norm(mk[0].args[2]) == "size",
-       f"{fi.key}:alignment", "array alignment is the element alignment", "array alignment is not the element alignment (type_.alignment)", fi.loc())
+    from ..folds import fold_make_array
+
+    fold = fold_make_array(repo)
+    if fold is not None:
+        ob(not fold["size_bad"], f"{fi.key}:size", f"folded over {fold['cases']} (element kind, count kind) cases: size is count * element size for a static "
+           "element and an integer count", f"array size: {fold['size_bad'][:1]}", fi.loc())
+        dyn = [x for x in fold["size_bad"] if "expected None" in str(x)] + fold["attrs_bad"]
+        ob(not dyn, f"{fi.key}:dynamic-arms", "size None iff null-terminated, expression-sized or dynamic element; type / num_entries recorded",
+           f"conditions selecting a dynamic array size changed: {dyn[:1]}", fi.loc())
+        ob(not fold["align_bad"], f"{fi.key}:alignment", "array alignment is the element alignment",
+           f"array alignment is not the element alignment (type_.alignment): {fold['align_bad'][:1]}", fi.loc())
+    else:
+        _make_array_structural(repo, rep, ob, fi)
 
     # _make_pointer
     fi = repo.func("cstruct.py", "cstruct._make_pointer")
